@@ -15,7 +15,7 @@ from .verifier import Verifier
 from . import solve
 from . import lemmas
 
-CONTRACT_MODULES = ["schedule", "basic_schedules", "multistage", "twolevel", "mixed", "seq_basic", "hrevolve"]
+CONTRACT_MODULES = ["schedule", "basic_schedules", "multistage", "twolevel", "mixed", "seq_basic", "hrevolve", "seq_periodic"]
 VERIF = os.path.dirname(os.path.dirname(os.path.abspath(__file__)))
 
 
@@ -214,7 +214,7 @@ def _gen_worker(job):
     return out
 
 
-def verify(repo="/repo", only=None, props=None, timeout_s=20, verbose=False):
+def verify(repo="/repo", only=None, props=None, timeout_s=20, verbose=False, exact=False):
     """Generate (one process per function) and discharge (pooled) all obligations.
     Returns (recs, obligations, results, covers, solve_wall); everything is plain data."""
     import multiprocessing as mp
@@ -223,7 +223,9 @@ def verify(repo="/repo", only=None, props=None, timeout_s=20, verbose=False):
     for name, c in reg.contracts.items():
         if c.assumed:
             continue
-        if only and not any(name.endswith(o) or o in name for o in only):
+        if only and exact and name not in only:
+            continue
+        if only and not exact and not any(name.endswith(o) or o in name for o in only):
             continue
         names.append(name)
     jobs = [(repo, n) for n in names]
@@ -352,10 +354,13 @@ def run_property(prop, tier="quick", seed=0, repo="/repo"):
     timeout = 30 if tier == "quick" else 90
     reg0 = build_registry()
     names = functions_for(reg0, prop)
+    fr = frame_obligations(repo, [prop])
     if not names:
-        return {"obligations": [], "functions": [], "no_vc_expected": True, "assumptions": []}
-    reg, recs, obligations, res, covers, wall = verify(repo=repo, only=names, timeout_s=timeout)
+        return {"obligations": fr, "functions": [], "no_vc_expected": not fr, "assumptions": [],
+                "covers": {}}
+    reg, recs, obligations, res, covers, wall = verify(repo=repo, only=names, timeout_s=timeout, exact=True)
     out = summarize(reg, recs, obligations, res, covers, props=[prop])
+    out["obligations"] += fr
     out["assumptions"] = ["assumed contract: %s (%s)" % (n, c.note) for n, c in reg.contracts.items()
                           if c.assumed]
     out["solve_wall_s"] = round(wall, 2)
@@ -364,6 +369,15 @@ def run_property(prop, tier="quick", seed=0, repo="/repo"):
             o["replay_job"] = replay_job(reg, o, o["model"])
     engine_checks(out, tier, repo, names)
     return out
+
+
+def frame_obligations(repo, props=None):
+    from . import frames
+    index = SourceIndex(repo)
+    obs = frames.effect_scan(index) + frames.label_noninterference(index)
+    if props:
+        obs = [o for o in obs if set(o["props"]) & set(props)]
+    return obs
 
 
 def engine_checks(out, tier, repo, names=None):
@@ -376,10 +390,14 @@ def engine_checks(out, tier, repo, names=None):
         out["cross_check"] = {"concrete_runs": len(res), "agree_with_cpython": len(res) - len(bad),
                               "actions_compared": sum(r["actions"] for r in res),
                               "disagreements": [r["detail"] for r in bad][:3]}
-        # a disagreement on the *unchanged* tree is an engine defect; on a changed tree the
-        # iterator may legitimately raise, so only flag when no obligation failed
-        if bad and all(o["status"] == "discharged" for o in out["obligations"]):
-            out["engine_error"] = "engine/CPython disagreement: %s" % bad[0]["detail"][:300]
+        # the engine's stream differing from CPython's is an engine defect (exit 3); a ghost
+        # assertion failing on a concrete run is a contract violation seen concretely, not an
+        # engine defect: it is reported by the obligation / bounded layers
+        broken = [r for r in bad if r["stream_differs"] and not r["ghost_failures"]]
+        out["cross_check"]["ghost_failures_on_concrete_runs"] = [r["ghost_failures"] for r in bad
+                                                                 if r["ghost_failures"]][:3]
+        if broken and all(o["status"] == "discharged" for o in out["obligations"]):
+            out["engine_error"] = "engine/CPython disagreement: %s" % broken[0]["detail"][:300]
     except Exception as exc:
         out["cross_check"] = {"error": repr(exc)[:300]}
     if tier == "thorough":
@@ -400,6 +418,7 @@ def run_all(tier="quick", seed=0, repo="/repo"):
     timeout = 30 if tier == "quick" else 90
     reg, recs, obligations, res, covers, wall = verify(repo=repo, timeout_s=timeout)
     out = summarize(reg, recs, obligations, res, covers)
+    out["obligations"] += frame_obligations(repo)
     out["assumptions"] = ["assumed contract: %s (%s)" % (n, c.note) for n, c in reg.contracts.items()
                           if c.assumed]
     out["solve_wall_s"] = round(wall, 2)
